@@ -7,6 +7,7 @@ package exec
 // everywhere.
 
 import (
+	"regexp"
 	"bytes"
 	"encoding/gob"
 	"encoding/json"
@@ -157,6 +158,10 @@ func c08Compile(c c08Case, variant int) (roots []*Task, results []*Result, err e
 }
 
 // c08WellFormed checks the structural clauses of the property on a compiled graph.
+// re-shuffle tasks inserted for a reused Result are named <op>_shuffle, with a counter when the same
+// Result is re-shuffled more than once in an invocation
+var c08ShuffleName = regexp.MustCompile(`_shuffle[0-9]*$`)
+
 func c08WellFormed(c c08Case, roots []*Task, results []*Result) error {
 	rootNode := c.Spec.Nodes[c.Spec.Root()]
 	if len(roots) != rootNode.Shards {
@@ -259,7 +264,7 @@ func c08WellFormed(c c08Case, roots []*Task, results []*Result) error {
 		if n := len(t.Slices); n > 0 {
 			last = t.Slices[n-1]
 		}
-		reshuffleOfResult := len(t.Deps) == 1 && argTask[t.Deps[0].Head] && strings.HasSuffix(t.Name.Op, "_shuffle")
+		reshuffleOfResult := len(t.Deps) == 1 && argTask[t.Deps[0].Head] && c08ShuffleName.MatchString(t.Name.Op)
 		for i, d := range t.Deps {
 			shuffle := false
 			if last != nil && !reshuffleOfResult && i < last.NumDep() {
